@@ -15,7 +15,7 @@ Local Open Scope N_scope.
 
 Definition pg_of (c : cfg) : cfg :=
   {| trig_of := trig_of c; fmode_in := fmode_in c; has_caller := has_caller c; gdepth := gdepth c;
-     threshold := threshold c; max_stack := max_stack c; sym_size := sym_size c; shp := PG |}.
+     threshold := threshold c; max_stack := max_stack c; sym_size := sym_size c; shp := PG; lmode_in := lmode_in c |}.
 
 (* ---------------------------------------------------------------- what the two shadow stacks share *)
 Definition uncyg (f : frame) : frame :=
@@ -161,7 +161,7 @@ Proof.
 Qed.
 
 (* mcount_entry_filter_check when the shadow stack is not full: a function of the filter state alone *)
-Definition core (tr : trig) (fm : bool) (gd : N) (f : fctl) (en : bool) : fctl * bool * verdict * trig * saved4 :=
+Definition core (tr : trig) (fm lo : bool) (gd : N) (f : fctl) (en : bool) : fctl * bool * verdict * trig * saved4 :=
   let sv : saved4 := (depth f, max_depth f, ftime f, fsize f) in
   let max0 := if max_depth f =? FILTER_NO_MAX_DEPTH then gd else max_depth f in
   if (out_count f >? 0)%Z then (f, en, V_OUT, notrig, sv) else
@@ -174,6 +174,7 @@ Definition core (tr : trig) (fm : bool) (gd : N) (f : fctl) (en : bool) : fctl *
             end in
   if (match t_filter tr with None => fm && (in_count f =? 0)%Z | _ => false end)
   then (f1, en, V_OUT, tr, sv) else
+  if lo then (f1, en, V_OUT, tr, sv) else
   let f2 := match t_depth tr with
             | Some d => {| in_count := in_count f1; out_count := out_count f1; depth := 0; max_depth := d;
                            ftime := ftime f1; fsize := fsize f1 |}
@@ -189,7 +190,7 @@ Definition core (tr : trig) (fm : bool) (gd : N) (f : fctl) (en : bool) : fctl *
 
 Lemma entry_check_noover c s a : idx s < max_stack c ->
   entry_check c s a =
-  let '(f', en', v, tr, sv) := core (trig_of c a) (fmode_in c) (gdepth c) (fc s) (enabled s) in
+  let '(f', en', v, tr, sv) := core (trig_of c a) (fmode_in c) (loc_out c (trig_of c a)) (gdepth c) (fc s) (enabled s) in
   ({| fc := f'; enabled := en'; cached := cached s; stack := stack s; ridx := ridx s; out := out s;
       warned := false |}, v, tr, sv).
 Proof.
@@ -199,14 +200,16 @@ Proof.
   cbn [fc enabled cached stack ridx out warned].
   destruct (out_count (fc s) >? 0)%Z; [reflexivity|].
   match goal with |- context [if ?b then (_, V_OUT, trig_of c a, _) else _] => destruct b end; [reflexivity|].
+  destruct (loc_out c (trig_of c a)); [reflexivity|].
   match goal with |- context [if ?b then _ else _] => destruct b end; reflexivity.
 Qed.
 
-Lemma core_not_rstack tr fm gd f en :
-  let '(_, _, v, _, _) := core tr fm gd f en in v <> V_RSTACK.
+Lemma core_not_rstack tr fm lo gd f en :
+  let '(_, _, v, _, _) := core tr fm lo gd f en in v <> V_RSTACK.
 Proof.
   unfold core. destruct (out_count f >? 0)%Z; [discriminate|].
   match goal with |- context [if ?b then (_, _, V_OUT, tr, _) else _] => destruct b end; [discriminate|].
+  destruct lo; [discriminate|].
   match goal with |- context [if ?b then _ else _] => destruct b end; discriminate.
 Qed.
 
@@ -377,9 +380,11 @@ Section sim.
     assert (Ip : idx sp < max_stack cp) by (unfold idx; cbn [cp pg_of max_stack]; lia).
     assert (Ic : idx sc < max_stack cc) by (unfold idx; cbn [cc cyg_of max_stack]; lia).
     unfold hooked, do_enter. rewrite (entry_check_noover cp sp a Ip), (entry_check_noover cc sc a Ic).
-    cbn [cp cc pg_of cyg_of trig_of fmode_in gdepth shp]. rewrite Hfc, Hen.
-    pose proof (core_not_rstack (trig_of c a) (fmode_in c) (gdepth c) (fc sc) (enabled sc)) as NRS.
-    destruct (core (trig_of c a) (fmode_in c) (gdepth c) (fc sc) (enabled sc)) as [[[[f' en'] v] tr] sv].
+    cbn [cp cc pg_of cyg_of trig_of fmode_in gdepth shp].
+    change (loc_out cp (trig_of c a)) with (loc_out c (trig_of c a)). change (loc_out cc (trig_of c a)) with (loc_out c (trig_of c a)).
+    rewrite Hfc, Hen.
+    pose proof (core_not_rstack (trig_of c a) (fmode_in c) (loc_out c (trig_of c a)) (gdepth c) (fc sc) (enabled sc)) as NRS.
+    destruct (core (trig_of c a) (fmode_in c) (loc_out c (trig_of c a)) (gdepth c) (fc sc) (enabled sc)) as [[[[f' en'] v] tr] sv].
     set (s1p := {| fc := f'; enabled := en'; cached := cached sp; stack := stack sp; ridx := ridx sp; out := out sp;
                    warned := false |}).
     set (s1c := {| fc := f'; enabled := en'; cached := cached sc; stack := stack sc; ridx := ridx sc; out := out sc;
@@ -471,6 +476,152 @@ Section sim.
         rewrite !fold_left_app, E1p, E1c, E2p, E2c.
         split; [reflexivity|]. split; [reflexivity|]. split; [exact R2|]. split; eapply eqw_trans; eassumption.
   Qed.
+  (* ---------------------------------------------------------------- prefixes of a run (the state at any instant) *)
+  Lemma sim_enter sp sc a t : R sp sc -> idx sp < max_stack cp -> idx sc < max_stack cc ->
+    (length (stack sp) <= length (stack sc))%nat ->
+    R (do_enter cp sp a t) (do_enter cc sc a t) /\
+    (length (stack (do_enter cp sp a t)) <= length (stack (do_enter cc sc a t)))%nat /\
+    length (stack (do_enter cc sc a t)) = S (length (stack sc)).
+  Proof.
+    intros HR Ip Ic HL. destruct HR as [[Hfc Hen Hca Hri Hout] Hv Np Nc].
+    unfold do_enter. rewrite (entry_check_noover cp sp a Ip), (entry_check_noover cc sc a Ic).
+    cbn [cp cc pg_of cyg_of trig_of fmode_in gdepth shp].
+    change (loc_out cp (trig_of c a)) with (loc_out c (trig_of c a)). change (loc_out cc (trig_of c a)) with (loc_out c (trig_of c a)).
+    rewrite Hfc, Hen.
+    pose proof (core_not_rstack (trig_of c a) (fmode_in c) (loc_out c (trig_of c a)) (gdepth c) (fc sc) (enabled sc)) as NRS.
+    destruct (core (trig_of c a) (fmode_in c) (loc_out c (trig_of c a)) (gdepth c) (fc sc) (enabled sc)) as [[[[f' en'] v] tr] sv].
+    set (s1p := {| fc := f'; enabled := en'; cached := cached sp; stack := stack sp; ridx := ridx sp; out := out sp;
+                   warned := false |}).
+    set (s1c := {| fc := f'; enabled := en'; cached := cached sc; stack := stack sc; ridx := ridx sc; out := out sc;
+                   warned := false |}).
+    assert (R1 : R s1p s1c) by (constructor; [constructor|..]; cbn; try reflexivity; assumption).
+    assert (BOTH : forall frp frc, uncyg frp = uncyg frc -> written (f_flags frp) = false -> f_ghost frp = false ->
+              R (entry_record cp s1p frp tr sv) (entry_record cc s1c frc tr sv) /\
+              (length (stack (entry_record cp s1p frp tr sv)) <= length (stack (entry_record cc s1c frc tr sv)))%nat /\
+              length (stack (entry_record cc s1c frc tr sv)) = S (length (stack sc))).
+    { intros frp frc Eu Wf Gf.
+      assert (Gfc : f_ghost frc = false) by (rewrite <- (uncyg_fun f_ghost (fun _ => eq_refl) _ _ Eu); exact Gf).
+      destruct (entry_record_rel c s1p s1c frp frc tr sv R1 Eu Wf Gf) as (R2 & _).
+      fold cp cc in R2. split; [exact R2|].
+      rewrite (entry_record_len cp s1p frp tr sv Gf), (entry_record_len cc s1c frc tr sv Gfc).
+      cbn [s1p s1c stack]. split; [lia|reflexivity]. }
+    destruct v.
+    - apply BOTH; [unfold s1p, s1c; cbn [ridx]; rewrite Hri; reflexivity|reflexivity|reflexivity].
+    - destruct (state_trig tr) eqn:ST.
+      + apply BOTH; [unfold s1p, s1c; cbn [ridx]; rewrite Hri; reflexivity|reflexivity|reflexivity].
+      + match goal with |- context [entry_record cc s1c ?fr tr sv] =>
+          destruct (entry_record_norec cc s1c fr tr sv eq_refl) as (topc & Stc & NRc & Wc & Gc & Enc & Cac & Outc & Ric & Fcc);
+          set (s1c' := entry_record cc s1c fr tr sv) in * end.
+        split; [|rewrite Stc; cbn [s1p s1c stack length]; split; [lia|reflexivity]].
+        destruct R1 as [[A1 A2 A3 A4 A5] A6 A7 A8].
+        constructor; [constructor; congruence| | |].
+        * rewrite Stc, vis_cons_drop by exact NRc. exact A6.
+        * exact A7.
+        * rewrite Stc. constructor; [intros _; exact Wc|exact A8].
+    - exfalso. apply NRS. reflexivity.
+  Qed.
+
+  Definition pgoal (p q : list ev) (sp sc : st) (hkp hkc : list bool) : Prop :=
+    exists sp' sc' hkp' hkc', exec cp p (sp, hkp) = (sp', hkp') /\ exec cc p (sc, hkc) = (sc', hkc') /\ R sp' sc' /\
+      (length (stack sp') <= length (stack sc'))%nat /\
+      match q with Enter _ _ :: _ => N.of_nat (length (stack sc')) < max_stack c | _ => True end.
+
+  Lemma pgoal_nil q sp sc hkp hkc : R sp sc -> (length (stack sp) <= length (stack sc))%nat ->
+    match q with Enter _ _ :: _ => N.of_nat (length (stack sc)) < max_stack c | _ => True end -> pgoal [] q sp sc hkp hkc.
+  Proof.
+    intros H1 H2 H3. exists sp, sc, hkp, hkc.
+    split; [reflexivity|]. split; [reflexivity|]. split; [exact H1|]. split; [exact H2|exact H3].
+  Qed.
+
+  Lemma height_pos k : 1 <= height k.
+  Proof. destruct k. cbn [height]. lia. Qed.
+
+  (* prefixes of a forest, given the statement for prefixes of each of its calls *)
+  Lemma sim_prefix_list (ks : list call) :
+    Forall (fun k => forall sp sc hkp hkc, R sp sc -> (length (stack sp) <= length (stack sc))%nat ->
+                     N.of_nat (length (stack sc)) + height k <= max_stack c ->
+                     forall p q, flat k = p ++ q -> pgoal p q sp sc hkp hkc) ks ->
+    forall sp sc hkp hkc, R sp sc -> (length (stack sp) <= length (stack sc))%nat ->
+    N.of_nat (length (stack sc)) + heights ks <= max_stack c ->
+    forall p q, flat_map flat ks = p ++ q -> pgoal p q sp sc hkp hkc.
+  Proof.
+    induction 1 as [|k r Hk _ IHr]; intros sp sc hkp hkc HR HL HH p q E.
+    - cbn [flat_map] in E. symmetry in E. apply app_eq_nil in E. destruct E as [-> ->].
+      apply pgoal_nil; [assumption|assumption|exact I].
+    - cbn [heights fold_right] in HH. fold (heights r) in HH.
+      cbn [flat_map] in E. symmetry in E.
+      assert (COMPLETE : forall l, p = flat k ++ l -> flat_map flat r = l ++ q -> pgoal p q sp sc hkp hkc).
+      { intros l -> El.
+        destruct (sim_call k sp sc hkp hkc HR HL) as (s1p & s1c & E1p & E1c & R1 & W1p & W1c); [lia|].
+        destruct (IHr s1p s1c hkp hkc R1) with (p := l) (q := q) as (s2p & s2c & h2p & h2c & E2p & E2c & R2 & L2 & B2).
+        - rewrite (eqw_len _ _ W1p), (eqw_len _ _ W1c). exact HL.
+        - rewrite (eqw_len _ _ W1c). lia.
+        - exact El.
+        - exists s2p, s2c, h2p, h2c. unfold exec in *. rewrite !fold_left_app, E1p, E1c, E2p, E2c.
+          split; [reflexivity|]. split; [reflexivity|]. split; [exact R2|]. split; [exact L2|exact B2]. }
+      destruct (app_eq_app _ _ _ _ E) as (l & [[-> El]|[Ek ->]]).
+      + apply (COMPLETE l eq_refl El).
+      + destruct l as [|e l'].
+        * rewrite app_nil_r in Ek. subst p. apply (COMPLETE [] (eq_sym (app_nil_r _))). reflexivity.
+        * destruct (Hk sp sc hkp hkc HR HL) with (p := p) (q := e :: l') as (s2p & s2c & h2p & h2c & E2p & E2c & R2 & L2 & B2);
+            [lia|exact Ek|].
+          exists s2p, s2c, h2p, h2c.
+          split; [exact E2p|]. split; [exact E2c|]. split; [exact R2|]. split; [exact L2|exact B2].
+  Qed.
+
+  Lemma sim_prefix_call : forall k sp sc hkp hkc, R sp sc -> (length (stack sp) <= length (stack sc))%nat ->
+    N.of_nat (length (stack sc)) + height k <= max_stack c ->
+    forall p q, flat k = p ++ q -> pgoal p q sp sc hkp hkc.
+  Proof.
+    induction k as [a t0 t1 kids IH] using call_ind'. intros sp sc hkp hkc HR HL HH p q E.
+    pose proof (sim_prefix_list kids IH) as PF. clear IH.
+    assert (HH0 := HH). cbn [height] in HH. fold (heights kids) in HH.
+    cbn [flat] in E.
+    destruct p as [|e p1].
+    - cbn [app] in E. subst q. apply pgoal_nil; [assumption|assumption|lia].
+    - cbn [app] in E. injection E as <- E.
+      assert (Ip : idx sp < max_stack cp) by (unfold idx; cbn [cp pg_of max_stack]; lia).
+      assert (Ic : idx sc < max_stack cc) by (unfold idx; cbn [cc cyg_of max_stack]; lia).
+      destruct (sim_enter sp sc a t0 HR Ip Ic HL) as (R1 & L1 & Len1).
+      assert (B1 : N.of_nat (length (stack (do_enter cc sc a t0))) + heights kids <= max_stack c) by (rewrite Len1; lia).
+      assert (STEP : forall sp' sc' hp' hc' (p2 : list ev),
+                exec cp p2 (do_enter cp sp a t0, hooked cp sp a :: hkp) = (sp', hp') ->
+                exec cc p2 (do_enter cc sc a t0, hooked cc sc a :: hkc) = (sc', hc') ->
+                exec cp (Enter a t0 :: p2) (sp, hkp) = (sp', hp') /\ exec cc (Enter a t0 :: p2) (sc, hkc) = (sc', hc')).
+      { intros. unfold exec in *. cbn [fold_left dstep]. split; assumption. }
+      symmetry in E.
+      destruct (app_eq_app _ _ _ _ E) as (l & [[-> El]|[Ek ->]]).
+      + (* all the callees are done *)
+        destruct l as [|e l'].
+        * cbn [app] in El. subst q. rewrite app_nil_r.
+          destruct (sim_forest kids (do_enter cp sp a t0) (do_enter cc sc a t0) (hooked cp sp a :: hkp) (hooked cc sc a :: hkc)
+                               R1 L1 B1) as (s2p & s2c & E2p & E2c & R2 & W2p & W2c).
+          destruct (STEP _ _ _ _ _ E2p E2c) as [X1 X2].
+          exists s2p, s2c, (hooked cp sp a :: hkp), (hooked cc sc a :: hkc).
+          split; [exact X1|]. split; [exact X2|]. split; [exact R2|].
+          split; [rewrite (eqw_len _ _ W2p), (eqw_len _ _ W2c); exact L1|exact I].
+        * (* the whole call *)
+          destruct l' as [|e2 l2]; [|destruct l2; discriminate El].
+          cbn [app] in El. injection El as <- <-.
+          destruct (sim_call (Call a t0 t1 kids) sp sc hkp hkc HR HL HH0) as (s3p & s3c & E3p & E3c & R3 & W3p & W3c).
+          exists s3p, s3c, hkp, hkc. cbn [flat] in E3p, E3c.
+          split; [exact E3p|]. split; [exact E3c|]. split; [exact R3|].
+          split; [rewrite (eqw_len _ _ W3p), (eqw_len _ _ W3c); exact HL|exact I].
+      + (* inside the callees *)
+        destruct (PF (do_enter cp sp a t0) (do_enter cc sc a t0) (hooked cp sp a :: hkp) (hooked cc sc a :: hkc) R1 L1 B1
+                     p1 l Ek) as (s2p & s2c & h2p & h2c & E2p & E2c & R2 & L2 & B2).
+        destruct (STEP _ _ _ _ _ E2p E2c) as [X1 X2].
+        exists s2p, s2c, h2p, h2c. split; [exact X1|]. split; [exact X2|]. split; [exact R2|]. split; [exact L2|].
+        destruct l as [|e l']; [exact I|exact B2].
+  Qed.
+
+  Lemma sim_prefix_forest f sp sc hkp hkc : R sp sc -> (length (stack sp) <= length (stack sc))%nat ->
+    N.of_nat (length (stack sc)) + heights f <= max_stack c ->
+    forall p q, flat_forest f = p ++ q -> pgoal p q sp sc hkp hkc.
+  Proof.
+    intros HR HL HH p q E. apply (sim_prefix_list f); try assumption.
+    apply Forall_forall. intros k _. apply sim_prefix_call.
+  Qed.
 End sim.
 
 (* the same records, whatever the options: from the start of a thread (z: the -Z size filter in force) *)
@@ -507,13 +658,13 @@ Qed.
 (* non-vacuity: trace_off / trace_on switches, a notrace function with a time= trigger and a filter function *)
 Definition mi_cfg : cfg :=
   mkcfg [(1, {| t_filter := None; t_depth := None; t_time := None; t_size := None;
-                t_trace_on := false; t_trace_off := true; t_trace := false; t_caller := false |});
+                t_trace_on := false; t_trace_off := true; t_trace := false; t_caller := false; t_loc := None; t_finish := false |});
          (2, {| t_filter := None; t_depth := None; t_time := None; t_size := None;
-                t_trace_on := true; t_trace_off := false; t_trace := false; t_caller := false |});
+                t_trace_on := true; t_trace_off := false; t_trace := false; t_caller := false; t_loc := None; t_finish := false |});
          (3, {| t_filter := Some false; t_depth := None; t_time := Some 5; t_size := None;
-                t_trace_on := false; t_trace_off := false; t_trace := false; t_caller := false |});
+                t_trace_on := false; t_trace_off := false; t_trace := false; t_caller := false; t_loc := None; t_finish := false |});
          (4, {| t_filter := Some true; t_depth := Some 2; t_time := None; t_size := None;
-                t_trace_on := false; t_trace_off := false; t_trace := true; t_caller := false |})]
+                t_trace_on := false; t_trace_off := false; t_trace := true; t_caller := false; t_loc := None; t_finish := false |})]
         true false 3 0 16 [] PG.
 Definition mi_forest : list call :=
   [Call 0 10 100 [Call 4 12 60 [Call 1 14 20 [Call 5 15 16 []]; Call 5 22 24 []; Call 2 26 30 []; Call 3 32 40 [Call 5 33 34 []];
